@@ -44,6 +44,7 @@ theorem eval_congr (e : Expr) : ∀ (s s' : St), s.sig = s'.sig → s.var = s'.v
   | or a b iha ihb => intro s s' h1 h2 h3; simp [eval, iha s s' h1 h2 h3, ihb s s' h1 h2 h3]
   | sel c a b ihc iha ihb =>
     intro s s' h1 h2 h3; simp [eval, ihc s s' h1 h2 h3, iha s s' h1 h2 h3, ihb s s' h1 h2 h3]
+  | cat a w b iha ihb => intro s s' h1 h2 h3; simp [eval, iha s s' h1 h2 h3, ihb s s' h1 h2 h3]
 
 /-- expressions that read signals only (no variable, no temporary) -/
 def sigOnly : Expr → Bool
@@ -57,6 +58,7 @@ def sigOnly : Expr → Bool
   | .and a b => sigOnly a && sigOnly b
   | .or a b => sigOnly a && sigOnly b
   | .sel c a b => sigOnly c && sigOnly a && sigOnly b
+  | .cat a _ b => sigOnly a && sigOnly b
 
 theorem eval_sigOnly (e : Expr) : ∀ (s s' : St), sigOnly e = true → s.sig = s'.sig → eval e s = eval e s' := by
   induction e with
@@ -81,6 +83,8 @@ theorem eval_sigOnly (e : Expr) : ∀ (s s' : St), sigOnly e = true → s.sig = 
   | sel c a b ihc iha ihb =>
     intro s s' h h1; simp only [sigOnly, Bool.and_eq_true] at h
     simp [eval, ihc s s' h.1.1 h1, iha s s' h.1.2 h1, ihb s s' h.2 h1]
+  | cat a w b iha ihb =>
+    intro s s' h h1; simp only [sigOnly, Bool.and_eq_true] at h; simp [eval, iha s s' h.1 h1, ihb s s' h.2 h1]
 
 /-! ### frame properties of `exec` -/
 
